@@ -75,7 +75,7 @@ class ControlEndpointEnv:
     """The real USBControlEndpoint + its environment + the spec-side ghost of the control transfer.
     Shared by the C10, C07 and C08 contracts."""
 
-    def __init__(self, c, handlers="standard", ep=0, extra_handlers=(), skiplist=()):
+    def __init__(self, c, handlers="standard", ep=0, extra_handlers=(), skiplist=(), foreign_setup_tokens=True):
         self.c, self.ep = c, ep
         u = self.utmi = UTMIInterface()
         ce = self.ce = USBControlEndpoint(utmi=u, endpoint_number=ep)
@@ -146,6 +146,10 @@ class ControlEndpointEnv:
                       "power-on values are 0")
         c.require("token_pid_is_a_token_pid", z3.Implies(new_token, z3.Or(self.is_in, self.is_out, self.is_setup, self.is_ping)),
                   why="TokenDetectorInterface: new_token only for IN/OUT/SETUP/PING (ensures of C01)")
+        if not foreign_setup_tokens:
+            c.require("setup_tokens_target_this_endpoint", z3.Implies(z3.And(new_token, self.is_setup), self.ep0),
+                      why="scope: this property quantifies over setup packets sent to the control endpoint; SETUP tokens "
+                          "addressed to other endpoint numbers are the subject of C07 (and C06), where they are not assumed away")
         # Two different packets cannot complete in the same cycle (all detectors watch one UTMI byte stream and a packet is
         # at least two cycles long): a token strobe never coincides with the completion of a data packet in the setup
         # decoder, with the decoder's `received` strobe that follows it one cycle later, or with a handshake strobe.
@@ -210,7 +214,7 @@ def make(cfg):
         skip = ()
         if cfg == "std_skip":
             skip = (lambda setup: setup.request == REQ_GET_STATUS,)
-        env = ControlEndpointEnv(c, handlers=cfg, skiplist=skip)
+        env = ControlEndpointEnv(c, handlers=cfg, skiplist=skip, foreign_setup_tokens=False)
         ts, I, O = env.ts, env.I, env.O
         env.stage_invariants()
         nonstd = env.f_type != TYPE_STANDARD
